@@ -121,6 +121,10 @@ for i, sh_cases in enumerate(shards):
     files["s%02d" % i] = HEADER + "Definition cases : list dom_case := [\n" + ";\n".join(case_v(c) for c in sh_cases) + \
         "].\nDefinition V := Eval vm_compute in violations cases.\nPrint V.\n"
 results = ck.coq_cases_parallel(files, timeout=3000)
+# a shard that did not finish (e.g. killed under memory pressure) is retried once, alone
+for name in [n for n, (rc, out) in results.items() if rc != 0]:
+    ck.log("retrying shard " + name)
+    results[name] = ck.coq_cases(name, files[name], timeout=9000)
 ck.log("coq evaluation done")
 
 
